@@ -211,6 +211,10 @@ func Payload(o Options) *Scenario {
 		typ := []string{files.TypeRPMDoc, files.TypeRPMLicence, files.TypeRPMLicense, files.TypeRPMReadme}[second-5]
 		body := []byte("D")
 		src2 := models.AddFile("/src/doc", body, 0o644, tm(false, "", 1500000000))
+		if zz.NondetBool("doc.source.is.a.symlink") {
+			// LICENSE -> ../LICENSE in a sub-package: the entry is still the file's bytes with its flag
+			src2 = models.AddSymlink("/src/doclnk", "doc", tm(false, "", 1500000000))
+		}
 		parent.OnlyRPM = true
 		info.Contents = append(info.Contents, &files.Content{Source: src2, Destination: "/xx/doc", Type: typ})
 		sc.Wants = append(sc.Wants, parent,
